@@ -105,6 +105,7 @@ class Interp(ExprMixin, StmtMixin, CallMixin, PrimMixin):
         self.field_types_by_cls = {}          # (class, attr) -> frozenset(class names)
         self.nullable_fields = set()          # (class name, field)
         self.global_cache = {}
+        self.global_writers = {}
         self.live_stack = []
         self.memo = {}
         self._last_join_syms = []
@@ -114,6 +115,7 @@ class Interp(ExprMixin, StmtMixin, CallMixin, PrimMixin):
         self.return_merge_limit = 2
         self.entry_merge_limit = 8
         self.fallthrough_caught = self._fallthrough_caught()
+        self.watch_results = {}               # qname -> list of (caller qname, site, args, kwargs, state, [(value, state)])
         self.watch_entries = {}               # qname -> list of entry states
         self.watch_returns = {}               # qname -> list of (value, state)
         self.field_kinds = {}                 # attr name -> 'int' | 'bytes'
